@@ -316,25 +316,20 @@ def run(chk, ctx):
     chk.floor('C16.D', 45, 'constructors', count=ncons)
 
     # ---- C: no memo
+    from .. import models
     memo = []
+    caching, unknown_deco = models.wrappers(prog, prog.functions.values())
+    memo.extend('%s (caching decorator)' % c for c in caching)
     for fi in prog.functions.values():
-        for d in fi.node.decorator_list:
-            txt = ast.unparse(d)
-            if txt not in ('classmethod', 'staticmethod'):
-                memo.append('%s decorated with %s' % (fi.short, txt))
         for n in ast.walk(fi.node):
             if isinstance(n, ast.Nonlocal):
                 memo.append('%s uses nonlocal' % fi.short)
-    for mi in prog.modules.values():
-        for n in ast.walk(mi.tree):
-            if isinstance(n, (ast.Import, ast.ImportFrom)):
-                names = [a.name for a in n.names]
-                mod = getattr(n, 'module', '') or ''
-                if 'functools' in names or mod == 'functools':
-                    memo.append('%s imports functools' % mi.relpath)
     chk.ob('C16.C', 'caching constructs', not memo,
-           'no caching decorator / nonlocal / functools in the package'
+           'no caching decorator / nonlocal state in the package'
            if not memo else '; '.join(memo[:3]))
+    if unknown_deco:
+        chk.undecide('C16.C', 'decorators without a model',
+                     '; '.join(unknown_deco[:3]))
     chk.note('cls.attributes() hands out the class-level __slots__ list '
              'itself; it is not a codec result and the library never '
              'writes it (outside the statement)')
